@@ -278,3 +278,197 @@ for _prog, _fwd in _variants():
                 return {'op': 'pop', 'some': some, 'forwarded_start': fwd}
             _finish(res, e, e.explore(path), 'C11.K1:pop:')
     _mk()
+
+
+# ------------------------------------------------------------------------------------------------------------------
+# the list natives (laythe_lib) on top of the kernels: argument decoding (numbers to indices), error cases, receiver unchanged
+class NativeWorld(ListWorld):
+    def __init__(self, prog='vm'):
+        super().__init__(prog)
+        e = self.e
+        W = self
+        ed = self.P.enum_def('Result')
+
+        def m_call_error(e_, a, c):
+            e_.path_state.setdefault('native_events', []).append(('error',))
+            inst = Opaque('Instance', 'error_instance')
+            le = EnumV('LyError', 0, {'Err': {0: Cell(inst)}}, None, W.P.enum_def('LyError'))
+            return EnumV('Result<Value, LyError>', 1, {'Err': {0: Cell(le)}}, None, ed)
+        e.model(r'^(laythe_lib::)?(\w+::)*\w+::call_error$', m_call_error)
+        e.model(r'^must_use$', lambda e_, a, c: a[0])
+        e.model(r'^<str as (std::string::|alloc::string::)?ToString>::to_string$', lambda e_, a, c: Opaque('String', 'message'))
+        e.model(r'^(laythe_core::)?(hooks::)?Hooks::as_gc$', lambda e_, a, c: Opaque('GcHooks', 'gc_hooks'))
+
+        def m_scan(e_, a, c):
+            e_.path_state.setdefault('native_events', []).append(('scan_roots',))
+            return UNIT
+        e.model(r'^(laythe_core::)?(hooks::)?Hooks::scan_roots$', m_scan)
+
+    def num(self, e, name):
+        x = z3.FP(name, z3.Float64())
+        f = self.P.lookup('<Value as From<f64>>::from')
+        return e.exec_fn(f, [x], 0, None), x
+
+    def list_value(self, e, lst):
+        f = self.P.lookup('<Value as From<List>>::from')
+        return e.exec_fn(f, [Struct('List', {0: Cell(e.copy_value(lst.f[0].get(e)))}, None)], 0, None)
+
+    def call_native(self, e, name, args):
+        f = self.P.lookup(f'<{name} as LyNative>::call')
+        if f is None:
+            raise Unsupported('no MIR for native ' + name)
+        seq = ConcSeq('Value', [Cell(a) for a in args])
+        me = e.fresh(name, 'native_self') if self.P.struct_def(name) is not None and self.P.struct_def(name).fields else Struct(name, {}, None)
+        return e.exec_fn(f, [Ref(Cell(me)), Ref(Cell(Opaque('Hooks', 'hooks'))), SliceRef(seq, bv(0, 64), bv(len(args), 64))], 0, None)
+
+
+def _integral(x):
+    return z3.And(z3.Not(z3.fpIsNaN(x)), z3.Not(z3.fpIsInf(x)), z3.fpEQ(z3.fpRoundToIntegral(z3.RTZ(), x), x))
+
+
+def _fp_of(n):
+    return z3.fpUnsignedToFP(z3.RNE(), n, z3.Float64())
+
+
+def _native_variants():
+    for fwd in (0, 1):
+        yield fwd
+
+
+for _fwd in _native_variants():
+    def _mkn(fwd=_fwd):
+        sfx = ('', '.forwarded')[fwd]
+        bounds = {'length': 'any <= capacity < 2^40', 'index argument': 'every f64 (NaN, infinities, fractions, negatives included)',
+                  'start state': ('fresh', 'forwarded once')[fwd], 'representation': 'tagged enum'}
+
+        def setup(W, e):
+            lst, blk0, seq, n, cap = W.new_list(e)
+            cur = cap
+            if fwd:
+                _, _, ncap = W.grow_once(e, lst, n, cap)
+                cur = ncap
+            return lst, blk0, (lambda i: z3.Select(seq.arr, i)), n, cap, cur
+
+        def is_ok(r):
+            return isinstance(r, EnumV) and r.tag == 0
+
+        @obligation('C11.K2.native_remove' + sfx, 'C11', programs=('vm',))
+        def n_remove(res, tier):
+            """list.remove(x) for every number x: removes and returns element x exactly when x is an integer with 0 <= x < len,
+            otherwise raises and leaves the list unchanged"""
+            res.bounds = bounds
+            W = NativeWorld()
+            e = W.e
+
+            def path(e):
+                lst, blk0, old, n, cap, cur = setup(W, e)
+                xv, x = W.num(e, 'x')
+                r = W.call_native(e, 'ListRemove', [W.list_value(e, lst), xv])
+                fin = W.final_block(e, blk0)
+                ln, cp, el = W.view(e, fin)
+                i = z3.BitVec('i', 64)
+                valid = z3.And(_integral(x), z3.fpGEQ(x, z3.FPVal(0.0, z3.Float64())), z3.fpLT(x, _fp_of(n)))
+                ok = is_ok(r)
+                e.check(z3.BoolVal(ok) == valid, 'remove(x): succeeds exactly when x is an integer with 0 <= x < len', {'x': str(x)})
+                if ok:
+                    idx = z3.fpToUBV(z3.RTZ(), x, z3.BitVecSort(64))
+                    got = W.term_of(e, e.payload0(r, 'Ok'))
+                    e.check(z3.Implies(valid, got == old(idx)), 'remove(x): returns the element at x')
+                    e.check(z3.Implies(valid, ln == n - 1), 'remove(x): the length shrinks by one')
+                    e.check(z3.Implies(z3.And(valid, z3.ULT(i, idx)), el(i) == old(i)), 'remove(x): elements before x are unchanged')
+                    e.check(z3.Implies(z3.And(valid, z3.ULE(idx, i), z3.ULT(i, n - 1)), el(i) == old(i + 1)), 'remove(x): elements after x move down')
+                else:
+                    e.check(ln == n, 'remove(x): an error leaves the length unchanged')
+                    e.check(z3.Implies(z3.ULT(i, n), el(i) == old(i)), 'remove(x): an error leaves the elements unchanged')
+                return {'native': 'ListRemove', 'ok': ok}
+            _finish(res, e, e.explore(path), 'C11.K2:remove:')
+
+        @obligation('C11.K2.native_insert' + sfx, 'C11', programs=('vm',))
+        def n_insert(res, tier):
+            """list.insert(x, v) for every number x: inserts v before element x exactly when x is an integer with 0 <= x <= len,
+            otherwise raises and leaves the list unchanged"""
+            res.bounds = bounds
+            W = NativeWorld()
+            e = W.e
+
+            def path(e):
+                lst, blk0, old, n, cap, cur = setup(W, e)
+                xv, x = W.num(e, 'x')
+                v, vt = W.val(e, 'inserted')
+                r = W.call_native(e, 'ListInsert', [W.list_value(e, lst), xv, v])
+                fin = W.final_block(e, blk0)
+                ln, cp, el = W.view(e, fin)
+                i = z3.BitVec('i', 64)
+                valid = z3.And(_integral(x), z3.fpGEQ(x, z3.FPVal(0.0, z3.Float64())), z3.fpLEQ(x, _fp_of(n)))
+                ok = is_ok(r)
+                e.check(z3.BoolVal(ok) == valid, 'insert(x, v): succeeds exactly when x is an integer with 0 <= x <= len', {'x': str(x)})
+                if ok:
+                    idx = z3.fpToUBV(z3.RTZ(), x, z3.BitVecSort(64))
+                    e.check(z3.Implies(valid, ln == n + 1), 'insert(x, v): the length grows by one')
+                    e.check(z3.Implies(valid, el(idx) == vt), 'insert(x, v): element x is v')
+                    e.check(z3.Implies(z3.And(valid, z3.ULT(i, idx)), el(i) == old(i)), 'insert(x, v): elements before x are unchanged')
+                    e.check(z3.Implies(z3.And(valid, z3.ULE(idx, i), z3.ULT(i, n)), el(i + 1) == old(i)), 'insert(x, v): elements from x on move up')
+                else:
+                    e.check(ln == n, 'insert(x, v): an error leaves the length unchanged')
+                    e.check(z3.Implies(z3.ULT(i, n), el(i) == old(i)), 'insert(x, v): an error leaves the elements unchanged')
+                return {'native': 'ListInsert', 'ok': ok}
+            _finish(res, e, e.explore(path), 'C11.K2:insert:')
+
+        @obligation('C11.K2.native_index_get' + sfx, 'C11', programs=('vm',))
+        def n_index_get(res, tier):
+            """list[x] for every number x: element x, counting from the end for negative x, exactly when x is an integer with
+            -len <= x < len; otherwise raises"""
+            res.bounds = bounds
+            W = NativeWorld()
+            e = W.e
+
+            def path(e):
+                lst, blk0, old, n, cap, cur = setup(W, e)
+                xv, x = W.num(e, 'x')
+                r = W.call_native(e, 'ListIndexGet', [W.list_value(e, lst), xv])
+                fin = W.final_block(e, blk0)
+                ln, cp, el = W.view(e, fin)
+                zero = z3.FPVal(0.0, z3.Float64())
+                valid = z3.And(_integral(x), z3.fpGEQ(x, z3.fpNeg(_fp_of(n))), z3.fpLT(x, _fp_of(n)))
+                ok = is_ok(r)
+                e.check(z3.BoolVal(ok) == valid, 'list[x]: succeeds exactly when x is an integer with -len <= x < len', {'x': str(x)})
+                if ok:
+                    pos = z3.fpToUBV(z3.RTZ(), z3.fpAbs(x), z3.BitVecSort(64))
+                    idx = z3.If(z3.fpLT(x, zero), n - pos, pos)
+                    got = W.term_of(e, e.payload0(r, 'Ok'))
+                    e.check(z3.Implies(valid, got == old(idx)), 'list[x]: is element x (negative x counts from the end)')
+                e.check(ln == n, 'list[x]: the list is unchanged')
+                return {'native': 'ListIndexGet', 'ok': ok}
+            _finish(res, e, e.explore(path), 'C11.K2:index_get:')
+
+        @obligation('C11.K2.native_index_set' + sfx, 'C11', programs=('vm',))
+        def n_index_set(res, tier):
+            """list[x] = v for every number x: replaces exactly element x (negative x from the end) when x is an integer with
+            -len <= x < len; otherwise raises and leaves the list unchanged"""
+            res.bounds = bounds
+            W = NativeWorld()
+            e = W.e
+
+            def path(e):
+                lst, blk0, old, n, cap, cur = setup(W, e)
+                xv, x = W.num(e, 'x')
+                v, vt = W.val(e, 'stored')
+                r = W.call_native(e, 'ListIndexSet', [W.list_value(e, lst), v, xv])
+                fin = W.final_block(e, blk0)
+                ln, cp, el = W.view(e, fin)
+                zero = z3.FPVal(0.0, z3.Float64())
+                i = z3.BitVec('i', 64)
+                valid = z3.And(_integral(x), z3.fpGEQ(x, z3.fpNeg(_fp_of(n))), z3.fpLT(x, _fp_of(n)))
+                ok = is_ok(r)
+                e.check(z3.BoolVal(ok) == valid, 'list[x] = v: succeeds exactly when x is an integer with -len <= x < len', {'x': str(x)})
+                e.check(ln == n, 'list[x] = v: the length is unchanged')
+                if ok:
+                    pos = z3.fpToUBV(z3.RTZ(), z3.fpAbs(x), z3.BitVecSort(64))
+                    idx = z3.If(z3.fpLT(x, zero), n - pos, pos)
+                    e.check(z3.Implies(valid, el(idx) == vt), 'list[x] = v: element x is v afterwards')
+                    e.check(z3.Implies(z3.And(valid, z3.ULT(i, n), i != idx), el(i) == old(i)), 'list[x] = v: every other element is unchanged')
+                else:
+                    e.check(z3.Implies(z3.ULT(i, n), el(i) == old(i)), 'list[x] = v: an error leaves the elements unchanged')
+                return {'native': 'ListIndexSet', 'ok': ok}
+            _finish(res, e, e.explore(path), 'C11.K2:index_set:')
+    _mkn()
